@@ -213,6 +213,33 @@ Section Rsa.
 
 End Rsa.
 
+(* decrypt_user_identity_token_password for the algorithm strings that do not name an RSA padding:
+   a null or empty EncryptionAlgorithm is the plain text branch (UserNameIdentityToken::
+   plaintext_password: String::from_utf8 of the password bytes, a null password being no bytes),
+   any other string is BadIdentityTokenInvalid.  [uri]: 0 = null, 1 = "", otherwise an unknown URI. *)
+Definition plaintext_password (secret : option (list Z)) : outcome (list Z) :=
+  let b := match secret with Some b => b | None => [] end in
+  if utf8_valid b then Ok b else Err.
+Definition decrypt_token_other (uri : Z) (secret : option (list Z)) : outcome (list Z) :=
+  if (uri =? 0) || (uri =? 1) then plaintext_password secret else Err.
+
+(* ServerState::authenticate_username_identity_token (server/state.rs) for a token with an RSA
+   EncryptionAlgorithm, on an endpoint that supports user/password tokens and whose policy id the
+   token carries: the password is decrypted with the session's server nonce - an error there is
+   the result - and compared, as UTF-8 bytes, with the password configured for the first user of
+   that name; an unknown user or another password is BadUserAccessDenied.
+   [stored] = None: no user of that name is configured. *)
+Definition authenticate (k : nat) (dec : padding -> list Z -> option (list Z)) (a : alg)
+           (secret : option (list Z)) (nonce : list Z) (stored : option (list Z)) : outcome unit :=
+  match decrypt_token k dec a secret nonce with
+  | Ok pw => match stored with
+             | Some s => if list_eqb s pw then Ok tt else Err
+             | None => Err
+             end
+  | Err => Err
+  | Panic => Panic
+  end.
+
 (* ---------- the code before the fixes ---------- *)
 Definition private_decrypt_fixed := private_decrypt.
 Module Legacy.
@@ -269,7 +296,14 @@ Inductive case :=
 | RoundTrip (k : Z) (pol : policy) (pw n n' : list Z)
   (* key size, padding used to decrypt, null secret?, cipher text length, transcript of the RSA
      primitive on the whole blocks of the cipher text (up to the first failure), nonce *)
-| Crafted (k : Z) (p : padding) (null : bool) (clen : Z) (tr : list (option (list Z))) (n' : list Z).
+| Crafted (k : Z) (p : padding) (null : bool) (clen : Z) (tr : list (option (list Z))) (n' : list Z)
+  (* a token whose EncryptionAlgorithm is null (0), empty (1) or an unknown URI (2): password bytes
+     (or a null password), nonce *)
+| Token (uri : Z) (null : bool) (bytes : list Z) (n' : list Z)
+  (* ActivateSession on a real ServerState: key size, endpoint policy, the password configured for
+     the user named in the token (None: no such user), the password the client encrypted with the
+     nonce n, the server nonce n' of the session *)
+| Auth (k : Z) (pol : policy) (stored : option (list Z)) (pw n n' : list Z).
 
 Definition encode (r : outcome (list Z)) : list Z :=
   match r with Ok pw => 0 :: pw | Err => [1] | Panic => [-2] end.
@@ -291,6 +325,16 @@ Definition run (c : case) : list Z :=
   | Crafted kz p null clen tr n' =>
     let k := Z.to_nat kz in
     encode (password_decrypt k (toy_dec k) p (if null then None else Some (synth k p (Z.to_nat clen) tr)) n')
+  | Token uri null bytes n' => encode (decrypt_token_other uri (if null then None else Some bytes))
+  | Auth kz pol stored pw n n' =>
+    let k := Z.to_nat kz in
+    match password_encrypt unit k (toy_enc k) (padding_of pol) (fun _ => tt) pw n with
+    | Ok ct => match authenticate k (toy_dec k) (alg_of pol) (Some ct) n' stored with
+               | Ok _ => [0] | Err => [1] | Panic => [-2]
+               end
+    | Err => [1]
+    | Panic => [-2]
+    end
   end.
 
 (* ---------- the property ---------- *)
@@ -308,6 +352,8 @@ Definition known (c : case) : Z :=
   match c with
   | RoundTrip _ _ pw n n' => if suffix_class pw n n' then 1 else 0
   | Crafted _ _ _ _ _ _ => 0
+  | Token _ _ _ _ => 0
+  | Auth _ _ _ pw n n' => if suffix_class pw n n' then 1 else 0
   end.
 
 (* reference evaluation of a decrypted plain text, written on the layout
@@ -344,6 +390,17 @@ Definition oracle (c : case) (out : list Z) : bool :=
       if null || negb (clen mod kz =? 0) then None
       else match all_plain tr with Some plain => ref_parse plain n' | None => None end in
     list_eqb out (match expected with Some pw => 0 :: pw | None => [1] end)
+  | Token uri null bytes n' =>
+    (* never a panic; an algorithm that is not understood is an error; a password that was not
+       encrypted comes back as it is or is refused, it is never turned into another one *)
+    let sent := if null then [] else bytes in
+    if (uri =? 0) || (uri =? 1) then list_eqb out [1] || list_eqb out (0 :: sent) && utf8_valid sent
+    else list_eqb out [1]
+  | Auth kz pol stored pw n n' =>
+    (* the session is activated exactly when the nonce is the session's, the user exists and the
+       password is the configured one; everything else is refused, nothing panics *)
+    let good := list_eqb n n' && match stored with Some s => list_eqb s pw | None => false end in
+    list_eqb out [if good then 0 else 1]
   end.
 
 Definition tr_ok (k : nat) (p : padding) (o : option (list Z)) : bool :=
@@ -357,4 +414,7 @@ Definition valid (c : case) : bool :=
     (* the transcript covers the whole blocks: all of them, or up to the first failure *)
     (Z.of_nat (length tr) * kz <=? clen) &&
     match all_plain tr with Some _ => Z.of_nat (length tr) =? clen / kz | None => true end
+  | Token _ _ _ _ => true
+  | Auth kz pol stored pw n n' =>
+    (66 <? kz) && utf8_valid pw && (Z.of_nat (length pw) + Z.of_nat (length n) <? 2 ^ 32)
   end.
